@@ -74,27 +74,37 @@ Fixpoint assoc_v (k : str) (m : list (str * value)) : option value :=
   | (k', v) :: r => if str_eqb k k' then Some v else assoc_v k r
   end.
 
-(* deepEqual.Calc: lists element-wise (List.Equals), maps key-wise (Map.Equals: sizes, then every
-   entry of the receiver in its iteration order, looked up in the other map), scalars by the matrix;
-   elements are compared deeply as well.
-   Map.Equals hands the OTHER map's value to the element comparison first: equal(st, o, v).  With
-   nested maps the roles of receiver and argument therefore alternate from level to level, and the
-   receiver decides the order in which entries are visited - which is observable, because the
-   comparison stops at the first entry that is not equal (false) or not comparable (error):
-     {a:{a:1,b:"x"}} = {a:{b:1,a:2}}   is an error,   {a:{b:1,a:2}} = {a:{a:1,b:"x"}}   is false.
-   [veqd sw a b] is structurally recursive on a and computes equal(a,b) for sw = false and
-   equal(b,a) for sw = true; in the second case the entries of b are visited and looked up in a
-   (the inner [find] returns the comparison on the entry of a directly, so that the recursion stays
-   structural).  Sem/OpsLaws.v proves veqd true a b = veqd false b a and the unfolding equations
-   veq_list_eq / veq_map_eq, which read exactly like the Go code. *)
-Fixpoint veqd (sw : bool) (a b : value) {struct a} : res bool :=
+(* how Map.Equals combines the answers of two entries: an entry that cannot be compared makes the
+   whole comparison an error whatever the other entries say (the first error is returned), otherwise
+   a differing entry (or a missing key) makes it false.  An answer outside the exact model (Unsup) is
+   stronger than false/true (it may hide an error) and weaker than an error. *)
+Definition worse (r1 r2 : res bool) : res bool :=
+  match r1, r2 with
+  | OOF, _ | _, OOF => OOF
+  | Panic, _ | _, Panic => Panic
+  | Err t, _ => Err t
+  | _, Err t => Err t
+  | Unsup, _ | _, Unsup => Unsup
+  | Ok false, _ | _, Ok false => Ok false
+  | Ok true, Ok true => Ok true
+  end.
+
+(* deepEqual.Calc: lists element-wise (List.Equals: lengths, then position by position, stopping at the
+   first position that is not equal - false or error), maps key-wise (Map.Equals: sizes, then every
+   entry of the receiver looked up in the other map; ALL entries are combined with [worse], so the
+   answer depends neither on the order of the entries nor on which map is the receiver), scalars by
+   the matrix; elements are compared deeply as well.
+   (Map.Equals hands the other map's value to the element comparison first, equal(st, o, v); the model
+   keeps the receiver's value first so that the recursion is structural - by veq_sym (Sem/OpsLaws.v,
+   C14_eq_sym) the outcome is the same.) *)
+Fixpoint veq (a b : value) {struct a} : res bool :=
   match a, b with
   | VList la, VList lb =>
       if negb (Nat.eqb (length la) (length lb)) then Ok false else
       (fix go (la lb : list value) : res bool :=
          match la, lb with
          | x :: la', y :: lb' =>
-             match veqd sw x y with
+             match veq x y with
              | Ok true => go la' lb'
              | r => r
              end
@@ -102,43 +112,17 @@ Fixpoint veqd (sw : bool) (a b : value) {struct a} : res bool :=
          end) la lb
   | VMap ma, VMap mb =>
       if negb (Nat.eqb (length ma) (length mb)) then Ok false else
-      if sw then
-        (* equal(b,a) = b.Equals(a): entries (k,vb) of b in b's order; o := a.Get(k); equal(o, vb) *)
-        (fix gob (mb : list (str * value)) : res bool :=
-           match mb with
-           | (k, vb) :: mb' =>
-               (fix find (m : list (str * value)) : res bool :=
-                  match m with
-                  | (k', o) :: m' =>
-                      if str_eqb k k' then
-                        match veqd false o vb with
-                        | Ok true => gob mb'
-                        | r => r
-                        end
-                      else find m'
-                  | [] => Ok false
-                  end) ma
-           | [] => Ok true
-           end) mb
-      else
-        (* equal(a,b) = a.Equals(b): entries (k,v) of a in a's order; o := b.Get(k); equal(o, v) *)
-        (fix go (ma : list (str * value)) : res bool :=
-           match ma with
-           | (k, v) :: ma' =>
-               match assoc_v k mb with
-               | Some o =>
-                   match veqd true v o with
-                   | Ok true => go ma'
-                   | r => r
-                   end
-               | None => Ok false
-               end
-           | [] => Ok true
-           end) ma
-  | _, _ => if sw then eq_scalar b a else eq_scalar a b
+      (fix go (ma : list (str * value)) : res bool :=
+         match ma with
+         | (k, v) :: ma' =>
+             worse (match assoc_v k mb with
+                    | Some o => veq v o
+                    | None => Ok false
+                    end) (go ma')
+         | [] => Ok true
+         end) ma
+  | _, _ => eq_scalar a b
   end.
-
-Definition veq (a b : value) : res bool := veqd false a b.
 
 (* fg.equal as used by switch, ~ and groupByEqual *)
 Definition equal_fg (a b : value) : res bool := veq a b.
